@@ -102,6 +102,7 @@ FVE(e) ==
       [] e.k \in {"neg", "not", "get", "typeof"} -> FVE(e.e)
       [] e.k = "bin" -> FVE(e.l) \cup FVE(e.r)
       [] e.k = "list" -> FVSeq(e.es, 1)
+      [] e.k = "map" -> FVSeq([j \in 1..Len(e.kvs) |-> e.kvs[j].key], 1) \cup FVSeq([j \in 1..Len(e.kvs) |-> e.kvs[j].val], 1)
       [] e.k = "idx" -> FVE(e.o) \cup FVE(e.i)
       [] e.k = "call" -> FVE(e.f) \cup FVSeq(e.args, 1)
       [] e.k = "mcall" -> FVE(e.o) \cup FVSeq(e.args, 1)
